@@ -213,6 +213,23 @@ def perturb(k):
     torch.rand(k % 3 + 1)
 
 
+def alias_sites(orig):
+    """(module, name) of every global of a loaded numqi module that is the function object `orig` (`from numpy.linalg import qr as _qr`)"""
+    import sys
+    out = []
+    for mname, mod in list(sys.modules.items()):
+        if mod is None or not (mname == 'numqi' or mname.startswith('numqi.')):
+            continue
+        try:
+            items = list(vars(mod).items())
+        except TypeError:
+            continue
+        for k, v in items:
+            if v is orig:
+                out.append((mod, k))
+    return out
+
+
 class Recorder:
     """records generators created from None and consumption of global generator state during a call"""
     def __init__(self):
@@ -241,6 +258,9 @@ class Recorder:
             return orig_dr(seed, *a, **k)
         self.saved.append((np.random, 'default_rng', orig_dr))
         np.random.default_rng = dr
+        for mod, k in alias_sites(orig_dr):          # `from numpy.random import default_rng` inside numqi
+            self.saved.append((mod, k, orig_dr))
+            setattr(mod, k, dr)
         self.s_np = np.random.get_state()
         self.s_py = random.getstate()
         self.s_t = torch.get_rng_state().clone()
@@ -847,6 +867,12 @@ class Capture:
                 return r
             self.saved.append((owner, name, orig))
             setattr(owner, name, w)
+            # the same function object bound under another name in a numqi module (`from numpy.linalg import qr as _qr`, `from ._internal import rand_haar_state`)
+            for mod, k in alias_sites(orig):
+                if mod is owner and k == name:
+                    continue
+                self.saved.append((mod, k, orig))
+                setattr(mod, k, w)
         for nm in ('qr', 'eigh', 'inv'):
             wrap(np.linalg, nm)
         for nm in ('_random_complex', 'rand_haar_unitary', 'rand_special_orthogonal_matrix', 'rand_density_matrix', 'rand_haar_state', 'to_special_orthogonal_exp'):
@@ -887,6 +913,22 @@ def validity_tie(ctx):
         ops.append('C10 nz ' + op); want.append(np.asarray(out)); tols.append(tol)
     seeds = [ctx.seed * 100 + i for i in range(2 if ctx.quick() else 8)]
     failed = []
+    # the hypotheses of the validity theorems (contracts of qr / eigh / inv / to_special_orthogonal_exp / the nested generators, positivity of
+    # weights, non-vanishing traces and norms) measured on the captured arrays: name -> worst residual; above CONTRACT_TOL the theorem does not
+    # apply to this run (reported as a broken tie)
+    CONTRACT_TOL = 1e-10
+    contracts, contract_bad = {}, []
+    def contract(name, resid, what=''):
+        resid = float(resid)
+        contracts[name] = max(contracts.get(name, 0.0), resid)
+        if not (resid <= CONTRACT_TOL):
+            contract_bad.append((name, resid, what))
+    eye_res = lambda M: float(np.abs(M - np.eye(M.shape[0])).max()) if M.size else 0.0
+    iso = lambda Q: eye_res(Q.conj().T @ Q)                    # QᴴQ = 1
+    def dm_res(A):
+        A = np.asarray(A)
+        return max(abs(np.trace(A) - 1), float(np.abs(A - A.conj().T).max()), max(0.0, -float(np.linalg.eigvalsh((A + A.conj().T) / 2).min())))
+    nonzero = lambda x: 0.0 if abs(x) > 1e-12 else 1.0       # `≠ 0` hypotheses: residual 1 when violated
     def guarded(tag, f):
         try:
             f()
@@ -900,6 +942,7 @@ def validity_tie(ctx):
                     with Capture() as c:
                         out = R.rand_haar_state(d, tag_complex=tc, seed=g)
                     raw = c.outs('_random_complex')[-1] if tc else g.log[-1][1]
+                    contract('haar_state_unit: |v|^2 != 0', nonzero(np.vdot(raw, raw)))
                     add(f'vec {d} {cbits(raw)}', out)
                 for size in (None, (2, 3)):
                     g = RecGen(s)
@@ -910,6 +953,7 @@ def validity_tie(ctx):
                     g = RecGen(s)
                     out = R.rand_n_ball(d, size=size, seed=g)
                     raw, u = g.log[0][1], g.log[1][1]
+                    contract('n_ball_mem: 0 <= u <= 1, |v|^2 != 0', max(0.0, -float(u.min()), float(u.max()) - 1, max(nonzero(np.vdot(r_, r_)) for r_ in raw.reshape(-1, d))))
                     for row_raw, ui, row_out in zip(raw.reshape(-1, d), u.reshape(-1), np.asarray(out).reshape(-1, d)):
                         add(f'ball {d} {cbits(row_raw)} {cbits([ui])}', row_out)
         guarded('block0', blk0)
@@ -918,6 +962,7 @@ def validity_tie(ctx):
                 with Capture() as c:
                     out = R.rand_haar_unitary(d, seed=RecGen(s))
                 Q, Rm = c.outs('qr')[0]
+                contract('haar_unitary_signFix: Q unitary (qr)', max(iso(Q), iso(Q.conj().T)))
                 add(f'signfix {d} {cbits(Q)} {cbits(np.diag(Rm))}', out, 0.0)
         guarded('block1', blk1)
         def blk2(s=s):
@@ -925,7 +970,9 @@ def validity_tie(ctx):
                 kk = d if k is None else k
                 with Capture() as c:
                     out = R.rand_density_matrix(d, k=k, kind='haar', seed=RecGen(s))
-                add(f'dm {d} {kk} {cbits(c.outs("_random_complex")[0])}', out)
+                G_ = c.outs("_random_complex")[0]
+                contract('density_matrix_valid: tr(G G^H) != 0', nonzero(np.trace(G_ @ G_.conj().T)))
+                add(f'dm {d} {kk} {cbits(G_)}', out)
                 with Capture() as c:
                     out = R.rand_density_matrix(d, k=k, kind='bures', seed=RecGen(s))
                 add(f'dmb {d} {kk} {cbits(c.outs("rand_haar_unitary")[0])} {cbits(c.outs("_random_complex")[0])}', out)
@@ -937,6 +984,8 @@ def validity_tie(ctx):
                     out = R.rand_povm(d, m, seed=g)
                 B = g.log[0][1] + 1j * g.log[1][1]
                 evl, evc = c.outs('eigh')[0]
+                S_ = c.ins('eigh')[0][0]
+                contract('povm_valid: V unitary, S = V diag(l) V^H, l > 0 (eigh)', max(iso(evc), iso(evc.conj().T), float(np.abs((evc * evl) @ evc.conj().T - S_).max()), max(0.0, 1e-12 - float(evl.min()))))
                 add(f'povm {d} {m} {cbits(B)} {cbits(evl)} {cbits(evc)}', out, 1e-10)
                 add(f'povmsum {d} {m} {cbits(B)}', c.ins('eigh')[0][0], 1e-11)
         guarded('block3', blk3)
@@ -947,6 +996,7 @@ def validity_tie(ctx):
                     out = R.rand_kraus_op(nt, di, do, tag_complex=tc, seed=g)
                 raw = g.log[0][1]
                 z0 = raw.astype(np.float64, copy=False).view(np.complex128) if tc else raw
+                contract('kraus_valid: Minv W = 1 (inv)', eye_res(c.outs("inv")[0] @ c.ins("inv")[0][0]))
                 add(f'kraus {nt} {do} {di} {cbits(z0)} {cbits(c.outs("inv")[0])}', out, 1e-10)
         guarded('block4', blk4)
         def blk5(s=s):
@@ -957,6 +1007,7 @@ def validity_tie(ctx):
                         out = R.rand_hermitian_matrix(d, eig=(-1.0, 2.0), tag_complex=tc, seed=g)
                     evl = g.log[0][1]
                     evc = c.outs('rand_special_orthogonal_matrix')[0]
+                    contract('hermitian_eig_range: V V^H = 1 (soExp), a <= l <= b', max(iso(evc.conj().T), max(0.0, -1.0 - float(evl.min()), float(evl.max()) - 2.0)))
                     add(f'herm {d} {cbits(evc)} {cbits(evl)}', out, 1e-11)
         guarded('block5', blk5)
         def blk6(s=s):
@@ -967,6 +1018,8 @@ def validity_tie(ctx):
                 r = di * do if rank is None else rank
                 G = g.log[0][1] + 1j * g.log[1][1]
                 evl, evc = c.outs('eigh')[0]
+                S_ = c.ins('eigh')[0][0]
+                contract('choi_valid: V unitary, S = V diag(l) V^H, l > 0 (eigh)', max(iso(evc), iso(evc.conj().T), float(np.abs((evc * evl) @ evc.conj().T - S_).max()), max(0.0, 1e-12 - float(evl.min()))))
                 add(f'choi {di} {do} {r} {cbits(G)} {cbits(evl)} {cbits(evc)}', out, 1e-10)
                 add(f'choipt {di} {do} {r} {cbits(G)}', c.ins('eigh')[0][0], 1e-11)
         guarded('block6', blk6)
@@ -1002,7 +1055,10 @@ def validity_tie(ctx):
                     add(f'vec {dA * dBv} {cbits(c.outs("_random_complex")[-1])}', psi)
                 else:
                     (Q0, _), (Q1, _) = c.outs('qr')[0], c.outs('qr')[1]
+                    c_ = c.outs("_random_complex")[2]
+                    contract('bipartite_state_valid: Q0^H Q0 = 1, Q1^H Q1 = 1 on k columns (qr), |c|^2 != 0', max(iso(Q0[:, :k]), iso(Q1[:, :k]), nonzero(np.vdot(c_, c_))))
                     add(f'bip {dA} {dBv} {k} {cbits(Q0[:, :k])} {cbits(Q1[:, :k])} {cbits(c.outs("_random_complex")[2])}', psi)
+                contract('pure_dm_valid: |psi|^2 = 1', abs(np.vdot(psi, psi) - 1))
                 rho = R.rand_bipartite_state(dA, dB, k=k, seed=RecGen(s), return_dm=True)
                 add(f'pdm {dA * dBv} {cbits(psi)}', rho, 1e-15)
         guarded('rand_bipartite_state', blk_bip)
@@ -1014,12 +1070,14 @@ def validity_tie(ctx):
                     out = R.rand_separable_dm(dA, dB, k=k, seed=g)
                 p = next(v for kind, v in g.log if kind == 'uniform')
                 dms = c.outs('rand_density_matrix')
+                contract('separable_dm_valid: p >= 0, sum p != 0, A_i B_i trace one PSD', max([max(0.0, -float(p.min())), nonzero(p.sum())] + [dm_res(x) for x in dms]))
                 add(f'sep {dA} {dBv} {k} {cbits(p)} {cbits(np.stack(dms[0::2]))} {cbits(np.stack(dms[1::2]))}', out)
                 g = RecGen(s)
                 with Capture() as c:
                     out = R.rand_separable_dm(dA, dB, k=k, seed=g, pure_term=True)
                 p = next(v for kind, v in g.log if kind == 'uniform')
                 vs = c.outs('rand_haar_state')
+                contract('separable_dm_pure_valid: p >= 0, sum p != 0, |u_i| = |v_i| = 1', max([max(0.0, -float(p.min())), nonzero(p.sum())] + [abs(np.vdot(x, x) - 1) for x in vs]))
                 add(f'sepp {dA} {dBv} {k} {cbits(p)} {cbits(np.stack(vs[0::2]))} {cbits(np.stack(vs[1::2]))}', out)
         guarded('rand_separable_dm', blk_sep)
         def blk_onb(s=s):
@@ -1032,6 +1090,7 @@ def validity_tie(ctx):
                         outs = [out] if ns is None else list(out)
                         assert len(us) == len(outs)
                         for u, o in zip(us, outs):
+                            contract('orthonormal_basis_valid: every U unitary (to_special_orthogonal_exp)', max([0.0] + [max(iso(x), iso(x.conj().T)) for x in np.asarray(u).reshape(-1, d, d)]))
                             add(f'onb {no} {d} {nq} {int(wi)} {cbits(u)}', o)
         guarded('rand_orthonormal_matrix_basis', blk_onb)
         def blk_chan(s=s):
@@ -1055,6 +1114,7 @@ def validity_tie(ctx):
                         out = R.rand_quantum_channel_matrix_subspace(d, nh, seed=RecGen(s))
                     if nh > 1:
                         so = c.outs('rand_special_orthogonal_matrix')[0]
+                        contract('channel_matrix_subspace_valid: SO rows real', float(np.abs(np.imag(so)).max()))
                         add(f'qcms herm {d} {nh - 1} {cbits(so[:nh - 1])}', out[1:])
                     add(f'chan {d} 1 -', out[:1], 0.0)
                 for nsym, nanti in ((1, 0), (2, 1), (N1 + d, N1), (3, 0), (1, N1)):
@@ -1063,6 +1123,7 @@ def validity_tie(ctx):
                     with Capture() as c:
                         out = R.rand_quantum_channel_matrix_subspace(d, (nsym, nanti), seed=RecGen(s))
                     sos = c.outs('rand_special_orthogonal_matrix')
+                    contract('channel_matrix_subspace_valid: SO rows real', max([0.0] + [float(np.abs(np.imag(x)).max()) for x in sos]))
                     add(f'chan {d} 1 -', out[:1], 0.0)
                     if nsym > 1:
                         add(f'qcms sym {d} {nsym - 1} {cbits(sos[0][:nsym - 1])}', out[1:nsym])
@@ -1074,6 +1135,7 @@ def validity_tie(ctx):
                 g = RecGen(s)
                 out = R.rand_ABk_density_matrix(dA, dB, kx, seed=g)
                 G = g.log[0][1] + 1j * g.log[1][1]
+                contract('abk_density_matrix_valid: tr(G G^H) != 0', nonzero(np.trace(G @ G.conj().T)))
                 add(f'abk {dA} {dB} {kx} {cbits(G)}', out)
         guarded('rand_ABk_density_matrix', blk_abk)
     model = common.run_model(ops)
@@ -1098,6 +1160,11 @@ def validity_tie(ctx):
             ctx.agree(short, short)
         else:
             ctx.disagree(short, f'max |model - impl| = {err:.3e}', f'tolerance {tol}')
+    for name, resid, what in contract_bad:
+        ctx.disagree(f'C10 contract {name}', f'hypothesis of the validity theorem holds on the captured arrays (<= {CONTRACT_TOL})', f'residual {resid:.3e} {what}')
+    ctx.count('contracts-measured', len(contracts))
+    ctx.extra['contracts_measured'] = {k_: float(f'{v:.3e}') for k_, v in sorted(contracts.items())}
+    ctx.extra['contracts_tolerance'] = CONTRACT_TOL
     for tag, why in failed:
         ctx.disagree(f'C10 nz capture {tag}', 'the model of the last lines applies', f'capture failed: {why}')
     ctx.extra['validity_tie_ops'] = len(ops)
@@ -1194,15 +1261,17 @@ def validity_checks(ctx):
                     b = dA if dB is None else dB
                     if rdm:
                         ok = x.shape == (dA * b, dA * b) and herm_err(x) < TOL and abs(np.trace(x) - 1) < TOL and abs(np.trace(x @ x) - 1) < 1e-8
+                        nerr = f'tr-1={abs(np.trace(x) - 1):.2e} tr(rho^2)-1={abs(np.trace(x @ x) - 1):.2e} herm={herm_err(x):.2e}' if x.ndim == 2 and x.shape[0] == x.shape[1] else f'shape={x.shape}'
                         psi = np.linalg.eigh(x)[1][:, -1]
                     else:
                         ok = x.shape == (dA * b,) and unit(x) < TOL
+                        nerr = f'norm-1={unit(x):.2e}' if x.ndim == 1 else f'shape={x.shape}'
                         psi = x
                     sv = np.linalg.svd(psi.reshape(dA, b), compute_uv=False)
                     rank = int((sv > 1e-9).sum())
                     if k is not None:
                         ok = ok and rank == k
-                    return ok, f'schmidt rank={rank} want={k}'
+                    return ok, f'{nerr}, schmidt rank={rank} want={k}'
                 add('rand_bipartite_state', f'dimA={dA},dimB={dB},k={k},return_dm={rdm}', f)
     for (dA, dB) in ((2, None), (2, 3)):
         for k in (1, 2, 4):
@@ -1509,6 +1578,14 @@ def probe_hardening(ctx):
             rp = dict(function='numqi.random.' + name, n=n0, seed=s)
             ok, ref = guarded(f'n={n0}, seed={s}', lambda: canon(f(n0, s)), rp)
             if not ok:
+                continue
+            # baseline: the very same call repeated must already agree; if it does not, this is plain non-reproducibility (reported once, under its own
+            # key) and the derived comparisons below would only restate it with a wrong diagnosis (dtype / aliasing / history)
+            ok, again = guarded(f'n={n0}, seed={s} (repeated)', lambda: canon(f(n0, s)), rp)
+            if not ok:
+                continue
+            if again != ref:
+                ctx.fail(f'repro:plain:{name}', f'numqi.random.{name}(n={n0}, seed={s}) called twice in a row with the same int seed gives two different results', dict(rp, how='two consecutive calls, nothing in between'))
                 continue
             # (2) the seed given as another integer-like type; the size given as a numpy integer
             variants = [('np.int64', np.int64(s)), ('np.uint64', np.uint64(s)), ('0-d int64 array', np.array(s, dtype=np.int64)), ('float', float(s))]
